@@ -29,7 +29,12 @@ BOUND = (
     'sets; boot: defer driven 7 times over 3 days, with and without the node status put back to delayed; '
     'recurrence: periodics/defer/next_job_batch/complete driven by the recorded timers for 10 weeks (weekly) / '
     '5 months (monthly) of simulated time: 7 fixed 1-3 node scenarios (+ every dow x 2 times and 7 dom values '
-    'thorough) plus 5 (quick) / 120 (thorough) seeded scenarios'
+    'thorough) plus 5 (quick) / 120 (thorough) seeded scenarios; late: the same specifications (first moment; '
+    'thorough: every picked moment) first seen by defer() {301, 3600} s AFTER the moment (same calendar day), either '
+    'because periodics()+defer() are called late or because schedule.pause() was in force from one hour before the '
+    'moment (timer armed, polls while paused) until unpause() at that offset; boot+view: a boot event (alone or '
+    'with a weekly event on the node) x {task, analysis} x {1, 2} calls of schedule.view_events() while the '
+    'pipeline is paused before defer() has handled the event, then unpause()'
 )
 
 REPO = os.environ.get('VERIF_REPO', '/repo')
@@ -51,7 +56,9 @@ from dawgie.pl.jobinfo import State  # noqa: E402
 logging.disable(logging.CRITICAL)
 
 UTC = _dt.timezone.utc
-CLAUSES = ['C20.computable', 'C20.match', 'C20.near', 'C20.due', 'C20.boot', 'C20.recurs']
+CLAUSES = ['C20.computable', 'C20.match', 'C20.near', 'C20.due', 'C20.due.late', 'C20.boot', 'C20.boot.viewed',
+           'C20.recurs']
+LATE_OFFSETS = (301, 3600)  # seconds after the moment, same calendar day for every time of day used in part 2
 SPAN = (_dt.date(2023, 12, 25), _dt.date(2028, 3, 5))
 TIMES = [_dt.time(0, 0, 0), _dt.time(6, 30, 15), _dt.time(12, 0, 0), _dt.time(23, 59, 59)]
 DATES = ['2020-01-01', '2023-12-31', '2024-02-29', '2026-01-01', '2028-03-05']
@@ -320,7 +327,7 @@ def _boot_delay(out):
 
 
 # ---------------------------------------------------------------- part 2: defer on a small pipeline
-def _setup(nodes: list, targets: list, t0: _dt.datetime) -> dict:
+def _setup(nodes: list, targets: list, t0: _dt.datetime, paused: bool = False) -> dict:
     '''nodes: [{'tag': 'wk.engine', 'factory': 'task'|'analysis', 'events': [spec, ...]}]; runs the real periodics()'''
     _WORLD[0] = _World()
     _TARGETS[0] = list(targets)
@@ -331,6 +338,8 @@ def _setup(nodes: list, targets: list, t0: _dt.datetime) -> dict:
     schedule.err.clear()
     schedule.suc.clear()
     schedule.pipeline_paused = False
+    if paused:
+        schedule.pause()
     root = dawgie.pl.dag.Node('root.root')
     made = {}
     events = []
@@ -378,11 +387,69 @@ def _due_case(n: dict, targets: list, now: _dt.datetime) -> list:
     return []
 
 
+def _fire_timers(until: _dt.datetime, limit: int) -> int:
+    '''fire recorded timers that are due by `until` in order (at most `limit`), moving the clock with them'''
+    w = _WORLD[0]
+    fired = 0
+    while fired < limit:
+        due = sorted((x for x in w.timers if x[0] <= until), key=lambda x: x[:2])
+        if not due:
+            break
+        timer = due[0]
+        w.timers.remove(timer)
+        _NOW[0] = max(_NOW[0], timer[0])
+        w.note('timer fires -> defer()')
+        try:
+            timer[2](*timer[3])
+        except BaseException:  # recorded by _defer_recorded; pylint: disable=broad-exception-caught
+            pass
+        fired += 1
+    return fired
+
+
+def _resume_at(when: _dt.datetime):
+    '''the pipeline is paused and polls every 10 s: let up to 3 polls happen, jump to `when` (the polls in between
+    only re-arm themselves), unpause() and let the pending poll fire'''
+    _fire_timers(when, 3)
+    _NOW[0] = max(_NOW[0], when)
+    schedule.unpause()
+    _fire_timers(when + _dt.timedelta(seconds=11), 2)
+
+
+def _late_case(n: dict, targets: list, m: _dt.datetime, off: int, mode: str) -> list:
+    '''the moment m passed `off` s ago (same day) when defer() first gets to handle the event: it is due'''
+    now = m + _dt.timedelta(seconds=off)
+    if mode == 'late-call':
+        made = _setup([n], targets, now)
+    else:  # 'paused': timer armed one hour ahead, pause across the moment, unpause late
+        made = _setup([n], targets, m - _dt.timedelta(seconds=3600))
+        if made[n['tag']] in schedule.que:
+            return []  # already queued an hour early: nothing to say here
+        schedule.pause()
+        _resume_at(now)
+    node = made[n['tag']]
+    want = _expected_todo(n, targets)
+    w = _WORLD[0]
+    if w.errors:
+        return [('C20.computable', 'defer-raises', w.errors[0], 'no exception')]
+    queued = node in schedule.que
+    todo = set(node.get('todo'))
+    if want and not (queued and want <= todo):
+        return [('C20.due.late', 'late-not-queued' if not queued else 'late-wrong-todo',
+                 {'queued': queued, 'todo': sorted(todo), 'status': node.get('status').name,
+                  'seconds_after_moment': off,
+                  'timers': [round((t[0] - _NOW[0]).total_seconds()) for t in w.timers],
+                  'history': w.history[-6:]},
+                 {'queued': True, 'todo': sorted(want)})]
+    return []
+
+
 def _due_cases(tier: str, rng: random.Random):
     specs = [s for s in _all_specs() if s['time'] in (TIMES[1].isoformat(), TIMES[0].isoformat())]
     lo = _dt.datetime(2023, 12, 25, tzinfo=UTC)
     hi = _dt.datetime(2025, 3, 5, tzinfo=UTC)
     k = 0
+    late = 0
     for spec in specs:
         moments = _moments(spec, lo, hi)
         if not moments:
@@ -399,7 +466,16 @@ def _due_cases(tier: str, rng: random.Random):
                 k += 1
                 fac = 'analysis' if k % 3 == 0 else 'task'
                 targets = ['a', 'b', 'c'] if k % 2 else ['x']
-                yield spec, fac, targets, m, off
+                yield spec, fac, targets, m, off, 'on-time'
+        for i, m in enumerate(picks):
+            if tier == 'quick' and i:
+                break
+            for off in LATE_OFFSETS:
+                for mode in ('late-call', 'paused'):
+                    late += 1
+                    fac = 'analysis' if late % 3 == 0 else 'task'
+                    targets = ['a', 'b', 'c'] if late % 2 else ['x']
+                    yield spec, fac, targets, m, off, mode
 
 
 def _dispatch(latency: float):
@@ -605,6 +681,45 @@ def _boot_defer(out):
             _add(out, 'C20.boot', 'boot-fired-again', case, {'firings': fired}, {'firings': 1})
 
 
+def _boot_viewed(out, only=None):
+    '''looking at the events (schedule.view_events, the /api/schedule/events endpoint) before defer() has handled
+    a boot event must not make the boot event disappear: it still fires once the pipeline is unpaused'''
+    t0 = _dt.datetime(2024, 2, 28, 22, 0, tzinfo=UTC)
+    for fac in ('task', 'analysis'):
+        for views in (1, 2):
+            for with_weekly in (False, True):
+                case = {'kind': 'boot-viewed', 'factory': fac, 'view_events_calls': views,
+                        'with_weekly_event': with_weekly}
+                if only is not None and only != case:
+                    continue
+                evs = [{'kind': 'boot'}] + ([_weekly(t0, 3, 0)] if with_weekly else [])
+                n = {'tag': 'bt.engine', 'factory': fac, 'events': evs}
+                made = _setup([n], ['a', 'b'], t0, paused=True)
+                node = made[n['tag']]
+                out['cases'] += 1
+                seen = []
+                for _ in range(views):
+                    try:
+                        seen.append(schedule.view_events())
+                    except Exception as e:  # pylint: disable=broad-exception-caught
+                        seen.append(repr(e))
+                _resume_at(t0 + _dt.timedelta(seconds=60))
+                want = _expected_todo(n, ['a', 'b'])
+                if _WORLD[0].errors:
+                    _add(out, 'C20.computable', 'defer-raises:boot-viewed', case, _WORLD[0].errors[0], 'no exception')
+                elif not (node in schedule.que and want <= set(node.get('todo'))):
+                    _add(out, 'C20.boot.viewed', 'boot-lost-after-view_events', case,
+                         {'queued': node in schedule.que, 'todo': sorted(node.get('todo')), 'view_events': seen,
+                          'history': _WORLD[0].history[-6:]},
+                         {'queued': True, 'todo': sorted(want)})
+                else:
+                    _dispatch(60)
+                    if not any(tag == n['tag'] for _t, tag, _x in _WORLD[0].firings):
+                        _add(out, 'C20.boot.viewed', 'boot-not-released-after-view_events', case,
+                             {'firings': 0}, {'firings': 1})
+    schedule.unpause()
+
+
 def _add(out, clause, sig, case, observed, expected, size=0):
     cur = out['violations'].get((clause, sig))
     if cur is None:
@@ -653,9 +768,17 @@ def run(tier: str, seed: int) -> dict:
     # part 2: due events are queued with all targets
     due_cases = 0
     silent_early = 0
-    for spec, fac, targets, m, off in _due_cases(tier, rng):
+    late_cases = 0
+    for spec, fac, targets, m, off, mode in _due_cases(tier, rng):
         now = m + _dt.timedelta(seconds=off)
         n = {'tag': 'du.engine', 'factory': fac, 'events': [spec]}
+        if mode != 'on-time':
+            case = {'kind': 'late', 'node': n, 'targets': targets, 'moment': m.isoformat(), 'offset': off,
+                    'mode': mode}
+            late_cases += 1
+            for clause, what, observed, expected in _late_case(n, targets, m, off, mode):
+                _add(out, clause, f'{what}:{mode}:{spec["kind"]}', case, observed, expected)
+            continue
         case = {'kind': 'due', 'node': n, 'targets': targets, 'now': now.isoformat(), 'moment': m.isoformat()}
         problems = _due_case(n, targets, now)
         due_cases += 1
@@ -664,8 +787,11 @@ def run(tier: str, seed: int) -> dict:
             problems = [p for p in problems if p[0] != 'C20.due']
         for clause, what, observed, expected in problems:
             _add(out, clause, f'{what}:{spec["kind"]}', case, observed, expected)
-    out['cases'] += due_cases
+    out['cases'] += due_cases + late_cases
     _boot_defer(out)
+    before = out['cases']
+    _boot_viewed(out)
+    viewed_cases = out['cases'] - before
 
     # part 3: recurrence
     scns = _scenarios(tier, rng)
@@ -689,10 +815,12 @@ def run(tier: str, seed: int) -> dict:
         violations.append(v)
     return {
         'cases': out['cases'],
-        'distinct': delay_cases + due_cases + len(scns),
+        'distinct': delay_cases + due_cases + late_cases + viewed_cases + len(scns),
         'rule': (
             'delay: one case per (specification, instant) pair, all pairwise different; due: one case per '
-            '(specification, factory, target set, moment, offset); recurrence: one case per step of a simulated '
+            '(specification, factory, target set, moment, offset); late: one case per (specification, factory, target '
+            'set, moment, seconds after the moment, late call | pause across the moment); boot+view: one case per '
+            '(factory, number of view_events() calls, with/without a weekly event); recurrence: one case per step of a simulated '
             'history (timer firing, dispatch, completion), counted distinct per scenario'
         ),
         'exhaustive': tier == 'thorough',
@@ -707,6 +835,8 @@ def run(tier: str, seed: int) -> dict:
         'specifications': len(specs) + 1,
         'delay_cases': delay_cases,
         'due_cases': due_cases,
+        'late_cases': late_cases,
+        'boot_viewed_cases': viewed_cases,
         'due_cases_before_window_not_checked': silent_early,
         'scenarios': len(scns),
         'past_moments_note': _past_note(specs),
@@ -734,6 +864,13 @@ def replay(case: dict) -> dict:
         problems = _check_delay(case['spec'], _event(case['spec']), _dt.datetime.fromisoformat(case['now']))
     elif kind == 'due':
         problems = _due_case(case['node'], case['targets'], _dt.datetime.fromisoformat(case['now']))
+    elif kind == 'late':
+        problems = _late_case(case['node'], case['targets'], _dt.datetime.fromisoformat(case['moment']),
+                              case['offset'], case['mode'])
+    elif kind == 'boot-viewed':
+        out = {'cases': 0, 'violations': {}}
+        _boot_viewed(out, only=case)
+        problems = [(v['clause'], v['signature'], v['observed'], v['expected']) for v in out['violations'].values()]
     elif kind == 'recur':
         problems = _check_recurs(case['scenario'], _simulate(case['scenario']))
         problems = [p for p in problems if p[0] == 'C20.recurs'] or problems
